@@ -114,8 +114,25 @@ def run(R):
             else:
                 R.violation("C13.table", key, "precedence table: %s; table = %s" % (msg, {k: p[k] for k in need}), [loc, tf.loc()])
     # ---- climbing loop
-    f = R.need_fn(PARSER + "parse_binary_operator_rhs")
-    rec = [c for c in f.calls if short(c.name) == PARSER + "parse_binary_operator_rhs"]
+    # the climbing loop: the Parser method that compares i32 precedences and reads the current token's precedence
+    P = R.prog
+    cands = []
+    for g in P.fns.values():
+        if g.spath.startswith(PARSER) and g.kind != "Closure":
+            ncmp = len([1 for _, s_ in g.stmts() if s_["rv"]["k"] == "binop" and s_["rv"]["op"] in ("Lt", "Le", "Gt", "Ge") and s_["rv"].get("lty") == "i32"])
+            if ncmp >= 1 and any(short(c.name) == PARSER + "get_token_precedence" for c in g.calls):
+                cands.append(g)
+    if len(cands) != 1:
+        R.violation("C13.assoc", "shape", "no single precedence-climbing loop found among the Parser methods (%d candidates)" % len(cands),
+                    [R.need_fn(PARSER + "get_token_precedence").loc()])
+        return
+    f = cands[0]
+    # recursive calls: to itself or to a wrapper that (only) forwards to it
+    wrappers = {f.key}
+    for g in P.fns.values():
+        if g.spath.startswith(PARSER) and g.key != f.key and any(f.key in P.callee_keys(g, c) for c in g.calls) and len(g.calls) <= 3:
+            wrappers.add(g.key)
+    rec = [c for c in f.calls if any(k in wrappers for k in P.callee_keys(f, c))]
     cmp_ops = [(i, s) for i, s in f.stmts() if s["k"] == "assign" and s["rv"]["k"] == "binop" and s["rv"]["op"] in ("Lt", "Le", "Gt", "Ge")
                and s["rv"].get("lty") == "i32"]
     if not rec or len(cmp_ops) < 2:
@@ -139,8 +156,14 @@ def run(R):
         else:
             R.ok("C13.assoc", "loop", "`<` on both tests, recursion at token_precedence + 1", rec[0].loc())
     # ---- prefix operators
-    uf = R.need_fn(PARSER + "parse_unary_operator")
-    calls = [c for c in uf.calls if short(c.name) == PARSER + "parse_binary_operator_rhs"]
+    # the prefix-operator function: the Parser method that builds the Invert (NOT) node
+    ufs = [g for g in P.fns.values() if g.spath.startswith(PARSER) and
+           any(s_["rv"]["k"] == "aggr" and s_["rv"].get("variant") == "Invert" for _, s_ in g.stmts())]
+    if len(ufs) != 1:
+        R.violation("C13.prefix", "shape", "no single Parser method builds the NOT node (%d)" % len(ufs), [f.loc()])
+        return
+    uf = ufs[0]
+    calls = [c for c in uf.calls if any(k in wrappers for k in P.callee_keys(uf, c))]
     levels = {}
     for c in calls:
         lv = c.args[1].get("int") if c.args[1]["k"] == "const" else None
